@@ -1,4 +1,9 @@
 use super::cursor::{PublishedCursor, PublishedCursorReader, RewindableCursor};
+#[cfg(grevm_verif)]
+use grevm_verif_rt::sync::atomic::{AtomicBool, AtomicUsize, Ordering};
+#[cfg(grevm_verif)]
+use std::cmp::max;
+#[cfg(not(grevm_verif))]
 use std::{
     cmp::max,
     sync::atomic::{AtomicBool, AtomicUsize, Ordering},
